@@ -191,6 +191,13 @@ func runDiff(s Script, v *vt.V) {
 		}
 		a := envA.Exec(op)
 		b := envB.Exec(op)
+		if op.K == "upCommit" && (a.Err != "" || b.Err != "") {
+			// What a writer is good for after its commit was refused is not specified
+			// (over HTTP the refused PUT may or may not have delivered its data):
+			// the differential stops using that writer.
+			delete(envA.Writers, op.W)
+			delete(envB.Writers, op.W)
+		}
 		name := "?"
 		if op.R >= 0 && op.R < len(u.Repos) {
 			name = u.Repos[op.R]
